@@ -280,6 +280,17 @@ func (i *impl) exec(h *lp.H, op string) string {
 							if got := strconv.Itoa(dp.Tok(c.DataPointGroups[gi].DataID)); got != want {
 								h.Violate(fmt.Sprintf("chunk %d group %d was sent under data id %s in full form and reached the reader under data id %s", c.SequenceNumber, gi, want, got))
 							}
+						} else if strings.HasPrefix(g, "A") {
+							// alias form: the reader must see exactly the data id the client itself announced (or pre-registered) under
+							// that alias - judged from the announcements the broker received, not from the model
+							al, _ := strconv.Atoi(g[1:strings.Index(g, ":")])
+							for tok, a := range i.idAlias {
+								if a == al {
+									if got := dp.Tok(c.DataPointGroups[gi].DataID); got != tok {
+										h.Violate(fmt.Sprintf("chunk %d group %d was sent under data id alias %d, which the client announced for data id %d, and reached the reader under data id %d", c.SequenceNumber, gi, al, tok, got))
+									}
+								}
+							}
 						}
 					}
 				} else {
@@ -406,6 +417,142 @@ func (i *impl) oracle(h *lp.H) {
 
 // lateAck (oracle only): a downstream whose acknowledgements are flushed rarely (10 s) survives an outage, consumes n chunks and is
 // closed: the final acknowledgement, with all n results, must reach the broker before the close request.
+// metaBurst: two filters of one downstream name the same source node (and a third another node); bursts of metadata for both
+// nodes; the reader must get every item once and, per source node, in the order the broker sent them
+func metaBurst(h *lp.H) {
+	b := broker.New()
+	b.Register()
+	conn, err := iscp.Connect("mem", broker.TransportName, iscp.WithConnPingInterval(time.Hour), iscp.WithConnPingTimeout(time.Hour))
+	if err != nil {
+		h.Violate("metaburst: cannot connect")
+		return
+	}
+	defer func() {
+		c, cancel := context.WithTimeout(context.Background(), 300*time.Millisecond)
+		conn.Close(c)
+		cancel()
+	}()
+	ctx, cancel := context.WithTimeout(context.Background(), 20*time.Second)
+	defer cancel()
+	d, err := conn.OpenDownstream(ctx, []*message.DownstreamFilter{
+		{SourceNodeID: "n0", DataFilters: []*message.DataFilter{{Name: "a", Type: "#"}}},
+		{SourceNodeID: "n0", DataFilters: []*message.DataFilter{{Name: "b", Type: "#"}}},
+		{SourceNodeID: "n1", DataFilters: []*message.DataFilter{{Name: "#", Type: "#"}}}}, iscp.WithDownstreamQoS(message.QoSReliable))
+	if err != nil {
+		h.Violate("metaburst: cannot open a downstream with two filters for one source node: " + err.Error())
+		return
+	}
+	var alias uint32 = 1
+	b.Lock()
+	if ds := b.Downs[d.ID]; ds != nil {
+		alias = ds.Alias
+	}
+	b.Unlock()
+	rid := 1
+	for round := 0; round < 3; round++ {
+		next := map[string]int{"n0": 0, "n1": 0}
+		total := 0
+		for k := 0; k < 400; k++ {
+			nodes := []string{"n0"}
+			if k%4 == 0 {
+				nodes = append(nodes, "n1")
+			}
+			for _, node := range nodes {
+				rid++
+				total++
+				b.Cur().Send(&message.DownstreamMetadata{StreamIDAlias: alias, SourceNodeID: node, RequestID: message.RequestID(rid),
+					Metadata: &message.BaseTime{Name: fmt.Sprintf("%s/%d", node, k)}, ExtensionFields: &message.DownstreamMetadataExtensionFields{}})
+			}
+		}
+		for j := 0; j < total; j++ {
+			rctx, rc := context.WithTimeout(ctx, watchdog)
+			m, err := d.ReadMetadata(rctx)
+			rc()
+			if err != nil {
+				h.Violate(fmt.Sprintf("metaburst round %d: only %d of %d metadata items reached the reader: %v", round, j, total, err))
+				return
+			}
+			bt, ok := m.Metadata.(*message.BaseTime)
+			if !ok {
+				continue
+			}
+			p := strings.SplitN(bt.Name, "/", 2)
+			k, _ := strconv.Atoi(p[1])
+			if p[0] != m.SourceNodeID {
+				h.Violate(fmt.Sprintf("metaburst: an item sent for node %s reached the reader attributed to node %s", p[0], m.SourceNodeID))
+				return
+			}
+			want := next[p[0]]
+			for p[0] == "n1" && want%4 != 0 {
+				want++
+			}
+			if k != want {
+				h.Violate(fmt.Sprintf("metaburst round %d: metadata of source node %s out of order or not exactly once: item #%d delivered where #%d was due", round, p[0], k, want))
+				return
+			}
+			next[p[0]] = k + 1
+		}
+	}
+	h.Count("metaburst:items-1500")
+}
+
+// qosMix: a transport that also has a datagram channel; a reliable, an unreliable and a partial downstream side by side. What
+// the broker sends on the reliable channel (reliable and partial streams) and as datagrams (unreliable stream) reaches each
+// stream's reader once and in order.
+func qosMix(h *lp.H) {
+	b := broker.New()
+	b.Datagrams = true
+	b.Register()
+	conn, err := iscp.Connect("mem", broker.TransportName, iscp.WithConnPingInterval(time.Hour), iscp.WithConnPingTimeout(time.Hour))
+	if err != nil {
+		h.Violate("qosmix: cannot connect over a transport with a datagram channel: " + err.Error())
+		return
+	}
+	defer func() {
+		c, cancel := context.WithTimeout(context.Background(), 300*time.Millisecond)
+		conn.Close(c)
+		cancel()
+	}()
+	ctx, cancel := context.WithTimeout(context.Background(), 10*time.Second)
+	defer cancel()
+	for _, q := range []message.QoS{message.QoSReliable, message.QoSUnreliable, message.QoSPartial} {
+		d, err := conn.OpenDownstream(ctx, []*message.DownstreamFilter{{SourceNodeID: "n0", DataFilters: []*message.DataFilter{{Name: "#", Type: "#"}}}}, iscp.WithDownstreamQoS(q))
+		if err != nil {
+			h.Violate(fmt.Sprintf("qosmix: cannot open a downstream with QoS %v: %v", q, err))
+			return
+		}
+		var alias uint32
+		b.Lock()
+		if ds := b.Downs[d.ID]; ds != nil {
+			alias = ds.Alias
+		}
+		b.Unlock()
+		for k := 1; k <= 5; k++ {
+			c := &message.DownstreamChunk{StreamIDAlias: alias, UpstreamOrAlias: upInfo(1), StreamChunk: &message.StreamChunk{SequenceNumber: uint32(k),
+				DataPointGroups: []*message.DataPointGroup{{DataIDOrAlias: dp.ID(1), DataPoints: dp.ParsePoints(fmt.Sprintf("%d/0%d", k, k))}}}, ExtensionFields: &message.DownstreamChunkExtensionFields{}}
+			if q == message.QoSUnreliable {
+				b.Cur().Dgram.Write(c)
+			} else {
+				b.Cur().Send(c)
+			}
+		}
+		for k := 1; k <= 5; k++ {
+			rctx, rc := context.WithTimeout(ctx, watchdog)
+			c, err := d.ReadDataPoints(rctx)
+			rc()
+			if err != nil {
+				h.Violate(fmt.Sprintf("qosmix: QoS %v downstream on a transport with a datagram channel: chunk %d of 5 sent by the broker never reached the reader: %v", q, k, err))
+				return
+			}
+			if int(c.SequenceNumber) != k {
+				h.Violate(fmt.Sprintf("qosmix: QoS %v downstream: chunk %d delivered where chunk %d was due", q, c.SequenceNumber, k))
+				return
+			}
+		}
+	}
+	h.Count("qosmix:streams-3")
+}
+
 func lateAck(h *lp.H, n int) {
 	b := broker.New()
 	b.Auto["downack"] = true
@@ -642,5 +789,15 @@ func main() {
 		lateAck(h, 30+270*k)
 		h.Op(fmt.Sprintf("scenario lateack %d", k), "-")
 		h.Distinct(fmt.Sprintf("lateack/%d", k))
+	}
+	if !h.TooMany() {
+		h.Case("metaburst")
+		metaBurst(h)
+		h.Op("scenario metaburst", "-")
+		h.Distinct("metaburst")
+		h.Case("qosmix")
+		qosMix(h)
+		h.Op("scenario qosmix", "-")
+		h.Distinct("qosmix")
 	}
 }
